@@ -57,7 +57,10 @@ def check(run, F, tier):
             is_insert = first_call[1].endswith("::insert")
             t = conn.truth(p, first_call)
             if t is None:
-                problems.setdefault("path does not branch on the result of the handled-set test", p)
+                # the test's result is never looked at on this path (e.g. it ends in an error before the decision point):
+                # acceptable as long as nothing is delivered and nothing is recorded
+                if notified or ins:
+                    problems.setdefault("path delivers / records without branching on the result of the handled-set test", p)
                 continue
             first_seen = t if is_insert else (not t)
             if not first_seen:
